@@ -241,11 +241,23 @@ def stopsAtCheckpoint (c : ConnRec) (r : List P2) : Bool :=
   | _, some q => c.cps.any (· == q)
   | _, none => false
 
+/-- the same fallback for a polyline connector: a 2-point route one of whose pin-attached ends sits
+    at the centre of its shape's bounding box (the dummy end vertex), where no pin of the class is -/
+def isPolyNoPathFallback (s : St) (c : ConnRec) (r : List P2) : Bool :=
+  match r with
+  | [a, b] =>
+    !c.orth && [(c.src, a), (c.dst, b)].any (fun (e, p) => match e with
+      | .pin sh cls => (match lookup s.cur.boxes sh with
+          | some bx => p == ⟨(bx.minX + bx.maxX) / 2, (bx.minY + bx.maxY) / 2⟩ && !(groupPins s sh cls).any (·.pos == p)
+          | none => false)
+      | _ => false)
+  | _ => false
+
 /-- connectors of this step whose orthogonal route() is the no-path fallback although every
     attached pin class has capacity (class no-path: a routing failure, C03/C05 territory) -/
 def noPathConns (s : St) (og : List ((Nat × Nat) × List EndObs)) : List Nat :=
   (s.conns.filter (fun c => match lookup s.cur.routes c.id with
-    | some r => (isNoPathFallback c.orth r || stopsAtCheckpoint c r) && (overOf og c.id).isEmpty
+    | some r => (isNoPathFallback c.orth r || isPolyNoPathFallback s c r || stopsAtCheckpoint c r) && (overOf og c.id).isEmpty
     | none => false)).map (·.id)
 
 def checkEnds (s : St) : St := Id.run do
